@@ -74,6 +74,9 @@ type c06World struct {
 	win    map[string]gen.Window
 	times  [5]time.Time
 	shared bool
+	// inverted: documents and CRLs carry an issue date / thisUpdate that lies AFTER their nextUpdate (a nonsensical but
+	// parseable artifact): what ends their validity is still nextUpdate alone
+	inverted bool
 }
 
 func (c *c06World) judgements() []judgement {
@@ -163,6 +166,13 @@ func (c *c06World) build(s *gen.Stream, id string) (*gen.World, *gen.Cert) {
 	w.RootCrl.NextUpdate = c.win["rootcrl"].NotAfter
 	w.PckCrl.ThisUpdate = c.win["pckcrl"].NotAfter.AddDate(-40, 0, 0)
 	w.RootCrl.ThisUpdate = c.win["rootcrl"].NotAfter.AddDate(-40, 0, 0)
+	if c.inverted {
+		w.TcbInfo.IssueDate = w.TcbInfo.NextUpdate.AddDate(3, 0, 0)
+		w.QeID.IssueDate = w.QeID.NextUpdate.AddDate(3, 0, 0)
+		w.PckCrl.ThisUpdate = c.win["pckcrl"].NotAfter.AddDate(3, 0, 0)
+		w.RootCrl.ThisUpdate = c.win["rootcrl"].NotAfter.AddDate(3, 0, 0)
+		w.CRLIssuerUTF8 = true // (the hand encoder: the standard library refuses to create such a list)
+	}
 	w.Build()
 	// issuer-chain headers with their own root / signer variants
 	r := w.Resp[gen.TcbInfoURL(w.FmspcHex())]
@@ -198,6 +208,21 @@ func c06Check(t gen.TB, c *c06World, s *gen.Stream, id, desc string, levels []ge
 	for _, l := range levels {
 		want := c.model(l)
 		o := w.Options(l, w.NewGetter(), pool)
+		if s.Intn(3) == 0 {
+			// a caller that starts from DefaultOptions() and fills in its own times field by field
+			d := verify.DefaultOptions()
+			d.TrustedRoots, d.Getter, d.GetCollateral, d.CheckRevocations = o.TrustedRoots, o.Getter, o.GetCollateral, o.CheckRevocations
+			if d.Now == nil {
+				d.Now = &verify.TimeSet{}
+			}
+			d.Now.PckCertChain = o.Now.PckCertChain
+			d.Now.TcbInfo = o.Now.TcbInfo
+			d.Now.QeIdentity = o.Now.QeIdentity
+			d.Now.PckCrl = o.Now.PckCrl
+			d.Now.RootCaCrl = o.Now.RootCaCrl
+			o = d
+			gen.Class("options:DefaultOptions-with-times-filled-in")
+		}
 		if s.Intn(2) == 0 && l < gen.LvlCRL {
 			// a caller that only fills in the times of the checks it asked for: the entries of disabled checks stay zero
 			if l < gen.LvlColl {
@@ -300,6 +325,7 @@ func TestC06(t *testing.T) {
 								continue
 							}
 							c := c06Fresh(distinctTimes(s), shared)
+							c.inverted = idx%3 == 0
 							w := c.win[j.name]
 							at := c.times[j.ti] // the bound; the governing time becomes bound + off
 							c.times[j.ti] = at.Add(off)
@@ -409,6 +435,7 @@ func TestC06(t *testing.T) {
 	gen.Prop(t, "random-windows", gen.N(700, 60000), func(t *rapid.T) {
 		s := gen.NewStream(rapid.Uint64().Draw(t, "content"), "c06r")
 		c := c06Fresh(distinctTimes(s), rapid.Bool().Draw(t, "shared"))
+		c.inverted = rapid.IntRange(0, 3).Draw(t, "inverted") == 0
 		k := rapid.IntRange(0, 3).Draw(t, "tight")
 		desc := []string{fmt.Sprintf("shared=%v", c.shared)}
 		for i := 0; i < k; i++ {
